@@ -220,6 +220,9 @@ class Validation:
 _REJ = re.compile(r'<<\s*"REJECT",\s*(\d+),\s*(\d+),\s*"([^"]*)",\s*(.*)>>$', re.S)
 
 
+MAX_CHUNK_BYTES = 24 << 20
+
+
 def _validate_one(module, cfg, traces, offset, env, timeout, heap):
     fd, path = tempfile.mkstemp(prefix="traces_", suffix=".json")
     with os.fdopen(fd, "w") as fh:
@@ -265,13 +268,14 @@ def validate_traces(module: str, traces: list, cfg: str | None = None, jobs: int
     if n == 0:
         return Validation(0, 0, 0, [], 0.0)
     if batch is None:
-        # balance by number of events
-        total = sum(len(t["ev"]) for t in traces)
-        per = max(1, total // jobs + 1)
+        # balance by size of the JSON text, and keep every chunk small enough for one JVM
+        # (a 100 MB chunk made TLC's JSON reader fail in the thorough tier of C10)
+        sizes = [len(json.dumps(t, separators=(",", ":"), default=str)) for t in traces]
+        per = max(1, min(sum(sizes) // jobs + 1, MAX_CHUNK_BYTES))
         chunks, cur, cnt, start = [], [], 0, 0
         for i, t in enumerate(traces):
             cur.append(t)
-            cnt += len(t["ev"]) + 1
+            cnt += sizes[i]
             if cnt >= per:
                 chunks.append((start, cur))
                 cur, cnt, start = [], 0, i + 1
